@@ -10,6 +10,7 @@ import (
 	"os"
 	"reflect"
 	"sort"
+	"strconv"
 	"strings"
 
 	specqbft "github.com/bloxapp/ssv-spec/qbft"
@@ -63,6 +64,19 @@ func newRun(b vh.Behaviour, res *vh.Result) *run {
 		}
 	}
 	height := uint64(toInt(p["LeaderOffset"]))
+	kit.LocalBad = map[kit.OpID]map[string]bool{}
+	if lb, ok := p["LocalBad"].(map[string]any); ok {
+		for k, vs := range lb {
+			idn, _ := strconv.Atoi(k)
+			id := kit.OpID(idn)
+			kit.LocalBad[id] = map[string]bool{}
+			if l, ok := vs.([]any); ok {
+				for _, v := range l {
+					kit.LocalBad[id][fmt.Sprint(v)] = true
+				}
+			}
+		}
+	}
 	w := kit.NewWorld(n, byz, height, sv, spectypes.BNRoleAttester)
 	r := &run{w: w, res: res, b: b, decided: map[kit.OpID]string{}, attack: strings.HasPrefix(b.Kind, "attack")}
 	// fault injection on the network interface: the publish call errors although the message went out
@@ -115,7 +129,7 @@ func (r *run) deliver(to kit.OpID, m *specqbft.SignedMessage, what string, expec
 			r.violate("C02:certificate-value-mismatch", fmt.Sprintf("operator %d decided %s but its certificate carries %s", to, after.Dval, kit.ValueName(dec.FullData)))
 		}
 		if len(m.Signers) == 1 { // locally reached decision
-			if kit.ValueCheck(dec.FullData) != nil {
+			if kit.ValueCheckFor(to, dec.FullData) != nil {
 				r.violate("C02:local-decision-on-invalid-value", fmt.Sprintf("operator %d decided locally on a value that fails its value check", to))
 			}
 			if inst := r.w.Instance(to); inst != nil && inst.State.ProposalAcceptedForCurrentRound != nil {
